@@ -24,7 +24,10 @@ SameOut(a, b) == /\ LET wa == Proj(a, {"write"}) wb == Proj(b, {"write"}) IN
                  /\ Proj(a, {"done"}) = Proj(b, {"done"})
 HasData(out) == \E i \in 1 .. Len(out) : out[i].o = "write" /\ out[i].f.type = "DATA"
 
-Apply(e, r, ins) == /\ SameOut(e.out, r.out)
+(* nothing escapes a protocol callback - unless the upper layer (the harness's own, on request) raised while consuming a delivery: that *)
+(* exception may propagate or be swallowed, and changes nothing else (the frame stays accepted and acknowledged exactly once)           *)
+NoRaise(e) == \A i \in 1 .. Len(e.out) : e.out[i].o = "raised" => e.upraise = 1
+Apply(e, r, ins) == /\ SameOut(e.out, r.out) /\ NoRaise(e)
                     /\ h' = r.h
                     /\ obs' = ObsStep(obs, ins, e.out)
                     /\ o4' = Obs4Step(o4, ins, e.out)
